@@ -19,7 +19,7 @@ RULE = ("history monitor over chains: every ordering that uses unit_scale at mos
         "transforms are also run in the swapped order. Oracle: original bit-unchanged and storage-disjoint; repeated calls identical; "
         "both orders equal each other and the recipe-then-quantised reference interpreter; per trace each backend runs exactly once, "
         "unit scaling first; quantise calls = 2 per linear + 3 per attention forward, 1 per op backward. Non-trivial = chain length "
-        ">= 2; distinct = (chain, format, emitted source). A third of the modules hold some parameters as float buffers (state_dict and storage comparisons cover them).")
+        ">= 2; distinct = (chain, format, emitted source). A third of the modules hold some parameters as float buffers (state_dict and storage comparisons cover them). Another third of the modules have frozen parameters; a quarter of the cases make a rejected call first; a third call the result under torch.no_grad().")
 ASSUMPTIONS = ["random source pinned by a shape-keyed deterministic generator", "unit_scaling.functional and FPFormat.quantise as established by C01-C06, C13-C14"]
 IMPORTS = ["unit_scaling.transforms", "unit_scaling.transforms.utils", "unit_scaling.transforms._unit_scale", "unit_scaling.transforms._compile"]
 REQUIRED_MONITORS = ["chains:run", "original:bit-compared", "alias:storage-sets-compared", "repeat:calls-compared", "order:swapped-compared",
